@@ -64,13 +64,13 @@ type e2eRig struct {
 	outDir, cacheDir, sentLogDir, stageDir, finalDir, recvLog string
 	conf                                                      e2eConf
 
-	mu      sync.Mutex
-	events  []string
-	txFault []e2eFault
-	rcFault []e2eFault
+	mu        sync.Mutex
+	events    []string
+	txFault   []e2eFault
+	rcFault   []e2eFault
 	pollFault []e2eFault
 	partFault []e2eFault
-	nTx     int
+	nTx       int
 
 	st       *stage.Stage
 	stLogger *stslog.FileIO
